@@ -680,10 +680,22 @@ private:
     // Tokenize the DOCTYPE up to the next '>' (naive; internal subset allowed within [])
     std::size_t pos = _cur;
     int bracket = 0;
+    char quote = '\0'; // inside a public/system literal (outside the internal subset) '>' does not end the DOCTYPE
     while (pos < _input.size())
     {
       char ch = _input[pos];
-      if (ch == '[')
+      if (quote != '\0')
+      {
+        if (ch == quote)
+        {
+          quote = '\0';
+        }
+      }
+      else if (bracket == 0 && (ch == '"' || ch == '\''))
+      {
+        quote = ch;
+      }
+      else if (ch == '[')
       {
         ++bracket;
       }
